@@ -158,6 +158,29 @@ def _parse_exports(text):
     return out
 
 
+def run_tlapm(root, deps=(), timeout=1500):
+    """Re-check a TLAPS proof: spec/<root>.tla with the modules it extends, in a scratch copy.
+    -> (True | False | None, one-line summary); None = tlapm could not be run to the end."""
+    import re as _re
+
+    with scratch("tlapm-") as d:
+        for f in (root,) + tuple(deps):
+            shutil.copy(SPEC / f"{f}.tla", d / f"{f}.tla")
+        for stub in (SPEC / "tlaps_stubs").glob("*.tla"):   # CommunityModules that tlapm does not ship (Export operators only)
+            shutil.copy(stub, d / stub.name)
+        try:
+            p = subprocess.run(["tlapm", "--toolbox", "0", "0", f"{root}.tla"], cwd=str(d), stdout=subprocess.PIPE,
+                               stderr=subprocess.STDOUT, text=True, errors="replace", timeout=timeout,
+                               env=dict(os.environ, TMPDIR=str(d)))
+        except (OSError, subprocess.TimeoutExpired) as e:
+            return None, f"tlapm {root}: did not finish: {e}"
+        m = _re.search(r"All (\d+) obligations? proved", p.stdout)
+        if m:
+            return True, f"tlapm {root}: all {m.group(1)} obligations proved"
+        m = _re.search(r"(\d+)/(\d+) obligations failed", p.stdout)
+        return False, f"tlapm {root}: " + (m.group(0) if m else p.stdout[-300:])
+
+
 def run_tlc(
     module,
     cfg=None,
